@@ -27,7 +27,7 @@ func init() { props["C08"] = runC08 }
 type c08Fetch struct {
 	ID   int   `json:"id"`
 	Deps []int `json:"deps"`
-	Dup  int   `json:"dupOf"` // -1, or the id of an earlier fetch this one is an exact duplicate of
+	Dup  int   `json:"dupOf"`  // -1, or the id of an earlier fetch this one is an exact duplicate of
 	Ent  int   `json:"entity"` // -1, or the index of the subgraph this fetch is a batch entity fetch on (multi-fetch candidate)
 }
 
